@@ -234,7 +234,7 @@ static inline void l0_partial_assign(E *d, const E *s_or_null, uint64_t n, int v
 }
 
 static inline E *L0_move(E *f, E *l, E *d) {            /* std::move(f, l, d): ascending move-assignment */
-  uint64_t n = L0_COUNT(l - f);
+  uint64_t n = L0_COUNT(L0_PDIFF(l, f));
   if (n) {
     L0_assert(f != d, "C01 C02: an element is never move-assigned onto itself");
     L0_assert(!(OBJ(d) == OBJ(f) && OFF(d) > OFF(f) && OFF(d) < OFF(f) + n * ESZ), "C01: std::move destination not inside the source range");
@@ -244,7 +244,7 @@ static inline E *L0_move(E *f, E *l, E *d) {            /* std::move(f, l, d): a
   return d + n;
 }
 static inline E *L0_move_backward(E *f, E *l, E *dl) {  /* std::move_backward */
-  uint64_t n = L0_COUNT(l - f);
+  uint64_t n = L0_COUNT(L0_PDIFF(l, f));
   if (n) {
     L0_assert(l != dl, "C01 C02: an element is never move-assigned onto itself");
     L0_assert(!(OBJ(dl) == OBJ(f) && OFF(dl) > OFF(f) && OFF(dl) < OFF(f) + n * ESZ), "C01: std::move_backward destination end not inside the source range");
@@ -282,7 +282,7 @@ static inline E *L0_uninitialized_copy_n(const E *f, int64_t cnt, E *d) {
   }
   return d + n;
 }
-static inline E *L0_uninitialized_copy(const E *f, const E *l, E *d) { return L0_uninitialized_copy_n(f, l - f, d); }
+static inline E *L0_uninitialized_copy(const E *f, const E *l, E *d) { return L0_uninitialized_copy_n(f, L0_PDIFF(l, f), d); }
 static inline E *L0_copy_n(const E *f, int64_t cnt, E *d) {
   uint64_t n = L0_COUNT(cnt);
   if (n) {
@@ -297,7 +297,7 @@ static inline E *L0_copy_n(const E *f, int64_t cnt, E *d) {
   }
   return d + n;
 }
-static inline E *L0_copy(const E *f, const E *l, E *d) { return L0_copy_n(f, l - f, d); }
+static inline E *L0_copy(const E *f, const E *l, E *d) { return L0_copy_n(f, L0_PDIFF(l, f), d); }
 static inline E *L0_fill_n(E *d, int64_t cnt, const E *v) {
   uint64_t n = L0_COUNT(cnt);
   if (n) {
@@ -350,9 +350,9 @@ static inline E *L0_destroy_n(E *f, int64_t cnt) {
   }
   return f + n;
 }
-static inline void L0_destroy(E *f, E *l) { (void)L0_destroy_n(f, l - f); }
+static inline void L0_destroy(E *f, E *l) { (void)L0_destroy_n(f, L0_PDIFF(l, f)); }
 static inline E *L0_swap_ranges(E *f1, E *l1, E *f2) {
-  uint64_t n = L0_COUNT(l1 - f1);
+  uint64_t n = L0_COUNT(L0_PDIFF(l1, f1));
   if (n) {
     l0_range_ok(f1, n, "a"); l0_range_ok(f2, n, "b");
     L0_assert(l0_disjoint(f1, n, f2, n), "C02: swap_ranges ranges do not overlap");
@@ -371,14 +371,14 @@ static inline E *L0_swap_ranges(E *f1, E *l1, E *f2) {
 }
 /* comparisons: abstract result; the ranges consulted are recorded */
 static inline _Bool L0_equal(const E *f1, const E *l1, const E *f2) {
-  uint64_t n = L0_COUNT(l1 - f1);
+  uint64_t n = L0_COUNT(L0_PDIFF(l1, f1));
   if (n) { l0_range_ok(f1, n, "a"); l0_range_ok(f2, n, "b");
     if (l0_cell_in(f1, n) || l0_cell_in(f2, n)) L0_assert(g_cell_st == ST_LIVE, "C02: compared elements are alive"); }
   g_cmp_kind = 1; g_cmp_obj1 = OBJ(f1); g_cmp_off1 = OFF(f1); g_cmp_n1 = n; g_cmp_obj2 = OBJ(f2); g_cmp_off2 = OFF(f2); g_cmp_n2 = n;
   return nondet_bool();
 }
 static inline _Bool L0_lexicographical_compare(const E *f1, const E *l1, const E *f2, const E *l2) {
-  uint64_t n = L0_COUNT(l1 - f1), m = L0_COUNT(l2 - f2);
+  uint64_t n = L0_COUNT(L0_PDIFF(l1, f1)), m = L0_COUNT(L0_PDIFF(l2, f2));
   if (n) l0_range_ok(f1, n, "a");
   if (m) l0_range_ok(f2, m, "b");
   if (l0_cell_in(f1, n) || l0_cell_in(f2, m)) L0_assert(g_cell_st == ST_LIVE, "C02: compared elements are alive");
